@@ -90,6 +90,13 @@ static void handle(int argc, char **argv) {
         verif_arm(0, atol(argv[pos]));
         ARM(); rc = cif_value_clone(v, &w); DISARM();
         summary(rc);
+        /* "shares no storage … modifying either leaves the other intact": grow the clone and the original when they are lists */
+        if (rc == CIF_OK && w && cif_value_kind(w) == CIF_LIST_KIND) {
+            cif_value_tp *filler = NULL; int i;
+            cif_value_create(CIF_UNK_KIND, &filler);
+            for (i = 0; i < 6; i++) { cif_value_insert_element_at(w, 0, filler); cif_value_insert_element_at(v, 0, filler); }
+            cif_value_free(filler);
+        }
         cif_value_free(w); cif_value_free(v);
     } else if (argc >= 5 && !strcmp(argv[1], "insert")) {
         cif_value_tp *lst = NULL, *e, *filler = NULL;
